@@ -1117,4 +1117,67 @@ theorem normalise_graphInv (W : List Wire) (g : MG) (l : List Op) (h : BuildInv 
   | cctrl _ _ _ _ => rfl
   | meas _ _ => rfl
 
+/-! ## the comparison `remove_redundant_circuits` makes -/
+
+/-- the circuit with its executed operations: wrappers expanded, identities dropped -/
+def flatC (c : Circuit) : Circuit := ⟨c.ne, c.np, c.nc, flat c.ops⟩
+
+theorem opWires_unwrap (o o' : Op) (h : o' ∈ Op.unwrap o) : opWires o' = opWires o := by
+  cases o with
+  | wrap gs q =>
+    simp only [Op.unwrap, List.mem_map] at h
+    obtain ⟨_, _, rfl⟩ := h
+    rfl
+  | one _ _ => simp only [Op.unwrap, List.mem_singleton] at h; rw [h]
+  | ctrl _ _ _ => simp only [Op.unwrap, List.mem_singleton] at h; rw [h]
+  | cctrl _ _ _ _ => simp only [Op.unwrap, List.mem_singleton] at h; rw [h]
+  | meas _ _ => simp only [Op.unwrap, List.mem_singleton] at h; rw [h]
+
+theorem flat_opOK (W : List Wire) (l : List Op) (h : ∀ o ∈ l, OpOK W o) : ∀ o ∈ flat l, OpOK W o := by
+  intro o ho
+  unfold flat at ho
+  obtain ⟨ho1, _⟩ := List.mem_filter.1 ho
+  obtain ⟨o0, ho0, hu⟩ := List.mem_flatMap.1 ho1
+  unfold OpOK
+  rw [opWires_unwrap o0 o hu]
+  exact h o0 ho0
+
+/-- **soundness of the repaired comparison as the filter uses it** (copy, `unwrap_nodes`, `remove_identity`, then
+    `circuit_is_isomorphic`): reported isomorphic ⇒ the executed operations of the two circuits are renamings of each
+    other, register by register -/
+theorem isoNorm2_sound (c1 c2 : Circuit) (h1 : ∀ o ∈ c1.ops, OpOK (wiresN c1.ne c1.np c1.nc) o)
+    (h2 : ∀ o ∈ c2.ops, OpOK (wiresN c2.ne c2.np c2.nc) o) (h : isoNormalised2 c1 c2 = .ok true) :
+    ∃ π, RenamedBy π (flatC c1) (flatC c2) := by
+  obtain ⟨g1, hb1, i1, _, _, _⟩ := build_rep c1 h1
+  obtain ⟨g2, hb2, i2, _, _, _⟩ := build_rep c2 h2
+  unfold isoNormalised2 at h
+  rw [hb1, hb2] at h
+  have hiso : isoGraphs2 g1.normalise g2.normalise = true := by
+    simp only [bind, Except.bind, pure, Except.pure] at h
+    injection h
+  obtain ⟨e1, e2, e3, π, a, b, c, d⟩ := iso2_sound_graphs _ _ _ _ _ _ _ _ _ _
+    (normalise_graphInv _ g1 c1.ops i1) (normalise_graphInv _ g2 c2.ops i2) hiso
+  exact ⟨π, ⟨e1, e2, e3, a, b, c, d⟩⟩
+
+/-- **soundness of `remove_redundant_circuits` with the repaired comparison**: the result is a sub-list, and every
+    circuit that was dropped is — after unwrapping and identity removal — a renaming, register by register, of a circuit
+    that is kept -/
+theorem removeRedundant2_sound (l : List Circuit) (hl : ∀ c ∈ l, ∀ o ∈ c.ops, OpOK (wiresN c.ne c.np c.nc) o) :
+    (removeRedundant2 l).Sublist l ∧
+    ∀ x ∈ l, x ∈ removeRedundant2 l ∨ ∃ k ∈ removeRedundant2 l, ∃ π, RenamedBy π (flatC k) (flatC x) := by
+  have hsub : (removeRedundant2 l).Sublist l := (removeRedundantWith_spec _ l).1
+  refine ⟨hsub, ?_⟩
+  intro x hx
+  rcases (removeRedundantWith_spec _ l).2 x hx with h | ⟨k, hk, hkx⟩
+  · exact Or.inl h
+  · refine Or.inr ⟨k, hk, ?_⟩
+    have hkl : k ∈ l := hsub.subset hk
+    cases hr : isoNormalised2 k x with
+    | ok r =>
+      rw [hr] at hkx
+      simp only at hkx
+      rw [hkx] at hr
+      exact isoNorm2_sound k x (hl k hkl) (hl x hx) hr
+    | error e => rw [hr] at hkx; cases hkx
+
 end Graphiq.Compare
